@@ -42,6 +42,7 @@ class Interleave:
         self.cancelled = False
         self.entered = target_code is None
         self.code = target_code
+        self.depth = 0
         self.thread = None
 
     # ---- called in the helper thread
@@ -57,8 +58,8 @@ class Interleave:
             self.to_main.release()
 
     def gate(self):
-        if self.suspended or not self.entered or threading.current_thread() is not self.thread:
-            return
+        if self.suspended or not self.entered or self.depth > 0 or threading.current_thread() is not self.thread:
+            return  # (never inside the target call itself: a callee contract evaluated there states clauses too)
         self.suspended = True
         self.to_main.release()
         self.to_thread.acquire()
@@ -78,12 +79,21 @@ class Interleave:
             def on_start(code, offset):
                 if code is self.code:
                     self.entered = True
+                    self.depth += 1
+
+            def on_leave(code, offset, value):
+                if code is self.code:
+                    self.depth -= 1
 
             mon.register_callback(tid, mon.events.PY_START, on_start)
+            mon.register_callback(tid, mon.events.PY_RETURN, on_leave)
+            mon.register_callback(tid, mon.events.PY_UNWIND, on_leave)
             try:
-                mon.set_local_events(tid, self.code, mon.events.PY_START)
+                mon.set_local_events(tid, self.code, mon.events.PY_START | mon.events.PY_RETURN)
+                mon.set_events(tid, mon.events.PY_UNWIND)  # (unwinding has no per-code-object switch)
             except Exception:
                 self.entered = True
+                self.depth = 0
         else:
             self.entered = True
         self.thread = threading.Thread(target=self._run, daemon=True)
@@ -106,6 +116,7 @@ class Interleave:
         if self.code is not None and mon is not None:
             try:
                 mon.set_local_events(mon.COVERAGE_ID, self.code, 0)
+                mon.set_events(mon.COVERAGE_ID, 0)
             except Exception:
                 pass
 
